@@ -10,31 +10,31 @@ VERIF = os.path.dirname(os.path.dirname(os.path.abspath(__file__)))
 CLAIMS = {
     "C08": dict(
         technique="static analysis: regex->DFA language equality with witnesses, taint/provenance to re.compile, path-sensitive AST dataflow of search()/Router.__call__",
-        text="Decides for ALL strings whether each convertor regex denotes exactly the language the statement gives its type (automaton product, exact on the supported regex subset), that the route pattern is anchored with fullmatch and compiled flag-free, that literal route text is escaped before compilation (provenance), that search() returns the first truthy match in declaration order with a None->404 fallback on every path, that the path-parameter hand-off keys agree, and that to_python cannot raise on its own language unguarded. The value-level equality of the round trip rests on the frozen facts about the formatters. Since round 2 the to_string half IS decided as a language problem: the regular language of everything to_string can return for values in the image of to_python (frozen renderings of the stdlib formatters, DFA images of rstrip/lstrip/lower/upper, membership tests of the path) is included in the placeholder's language, zeros are stripped only from texts that all contain a '.', to_python applies the constructor the formatter inverts (this found and repaired F27), the date convertor slices the digit runs of its regex, and search()/matches() are not memoised.",
+        text="Decides for ALL strings whether each convertor regex denotes exactly the language the statement gives its type (automaton product, exact on the supported regex subset), that the route pattern is anchored with fullmatch and compiled flag-free, that literal route text is escaped before compilation (provenance), that search() returns the first truthy match in declaration order with a None->404 fallback on every path, that the path-parameter hand-off keys agree, and that to_python cannot raise on its own language unguarded. The value-level equality of the round trip rests on the frozen facts about the formatters. Since round 2 the to_string half IS decided as a language problem: the regular language of everything to_string can return for values in the image of to_python (frozen renderings of the stdlib formatters, DFA images of rstrip/lstrip/lower/upper, membership tests of the path) is included in the placeholder's language, zeros are stripped only from texts that all contain a '.', to_python applies the constructor the formatter inverts (this found and repaired F27), the date convertor slices the digit runs of its regex, and search()/matches() are not memoised. request.path_params returns the stored mapping unchanged.",
         note="Trusted: CPython re semantics for the supported regex subset; alphabet is Latin-1 plus Unicode class representatives; stdlib constructor domains (int limit, date validity, Decimal/UUID grammar) are a frozen fact table.",
         ref="DESIGN.md section 3, C08",
     ),
     "C09": dict(
         technique="static analysis: path-sensitive AST dataflow; symbolic rewrite algebra on reaching-definition trees; idiom table for segment-aware prefix tests",
-        text="All clauses of C09 are structural and are decided on every path of the eight functions involved: the prefix test is segment-aware (path == prefix or path.startswith(prefix + '/')), the table is searched in declaration order with a None fallback, the match branch stores root' = root + P and path' = path[len(P):] with the same P and the same searched path (so root'+path' = root+path symbolically, which composes for nested mounts), the no-match branch stores nothing before Response(404), hosts use fullmatch in table order with a 404 fallback.",
+        text="All clauses of C09 are structural and are decided on every path of the eight functions involved: the prefix test is segment-aware (path == prefix or path.startswith(prefix + '/')), the table is searched in declaration order with a None fallback, the match branch stores root' = root + P and path' = path[len(P):] with the same P and the same searched path (so root'+path' = root+path symbolically, which composes for nested mounts), the no-match branch stores nothing before Response(404), hosts use fullmatch in table order with a 404 fallback. The host searched on WSGI is computed from HTTP_HOST alone.",
         note="Trusted: str.startswith/slicing semantics; an acceptance test written in an idiom outside the table is reported as a violation only for the bare-startswith anti-idiom, otherwise as an unmatched acceptance path.",
         ref="DESIGN.md section 3, C09",
     ),
     "C13": dict(
         technique="static analysis: who-may-write scan + path-fact dominance of the header store, exhaustive check of the folded cookie escape table over 0-255, provenance of the Location header, source scan of list_headers",
-        text="Decides on the code's shape, for all strings and all mutation sequences: the only store into the header mapping's backing dict is in __setitem__ and every path to it has rejected CR, LF and NUL in both key and value (append/update/setdefault funnel through it; nothing outside the class touches the dict); for every code point 0-255 the cookie escaper emits either a safe single character, an escape pair or a 3-digit octal escape and never a raw ';', CR, LF, NUL, quote or backslash, and both name and value pass it; the redirect target passes iri_to_uri = quote(iri, safe=S) with S free of CR LF NUL SP; list_headers emits only the checked mapping and Cookie objects. The Location provenance rule covers every path of both RedirectResponse constructors.",
+        text="Decides on the code's shape, for all strings and all mutation sequences: the only store into the header mapping's backing dict is in __setitem__ and every path to it has rejected CR, LF and NUL in both key and value (append/update/setdefault funnel through it; nothing outside the class touches the dict); for every code point 0-255 the cookie escaper emits either a safe single character, an escape pair or a 3-digit octal escape and never a raw ';', CR, LF, NUL, quote or backslash, and both name and value pass it; the redirect target passes iri_to_uri = quote(iri, safe=S) with S free of CR LF NUL SP; list_headers emits only the checked mapping and Cookie objects. The Location provenance rule covers every path of both RedirectResponse constructors. Every Location header written anywhere in the package passes iri_to_uri.",
         note="Trusted: typing.MutableMapping mixins route through __setitem__/__delitem__; urllib.parse.quote contract. The constructor path MutableHeaders(headers) is unchecked by the code and outside the statement's quantifier (recorded as an observation).",
         ref="DESIGN.md section 3, C13",
     ),
     "C16": dict(
         technique="static analysis: writer/reader table agreement enumerated over 0-255 on folded constants + reader structure extracted from the AST; API-provenance rule for UTC datetimes; argument pass-through on all paths of set_cookie",
-        text="Decides the per-character clause exactly (for every code point 0-255: what the writer emits is ASCII, contains no separator the reader splits on, and is inverted by the reader's unquoting; raw-path and empty-value side conditions), the Expires provenance (the datetime formatted with a literal GMT is UTC-aware and equals time.time()+expires), Max-Age pass-through and delete_cookie constants. Does not decide multi-cookie header interplay beyond the separator argument. Also: Cookie.__init__ keeps every argument as given and __str__ formats self.expires (the link between set_cookie's UTC datetime and the GMT label); the unquoted-path guard may be a disjunction of regex predicates and charwise str predicates, each evaluated per code point.",
+        text="Decides the per-character clause exactly (for every code point 0-255: what the writer emits is ASCII, contains no separator the reader splits on, and is inverted by the reader's unquoting; raw-path and empty-value side conditions), the Expires provenance (the datetime formatted with a literal GMT is UTC-aware and equals time.time()+expires), Max-Age pass-through and delete_cookie constants. Does not decide multi-cookie header interplay beyond the separator argument. Also: Cookie.__init__ keeps every argument as given and __str__ formats self.expires (the link between set_cookie's UTC datetime and the GMT label); the unquoted-path guard may be a disjunction of regex predicates and charwise str predicates, each evaluated per code point. Headers.__init__ stores every header value as given.",
         note="Trusted: http.cookies._unquote contract (re-stated in the checker), str.strip/split semantics, strftime %a/%b under the C locale.",
         ref="DESIGN.md section 3, C16",
     ),
     "C05": dict(
         technique="static analysis: typestate (protocol automaton) in product with a path-sensitive AST dataflow of every response __call__, helpers and closures inlined; header-name provenance; constant scans; taint of file-name text",
-        text="For every concrete response class (9 ASGI, 9 WSGI, found from the class table) the emit sequence is checked against the gateway grammar on ALL paths of __call__ with handle_*, render_stream and the sendfile closures inlined: ASGI start, body*(more_body true), one final body, nothing after, every normal exit after the final body and every exceptional exit a legal prefix; WSGI start_response exactly once before the first body, 'NNN reason' status from the table with its unknown-code fallback, header list from list_headers or the range-exception constants, every yielded expression bytes-typed. Also decided: lower-case byte header names on every ASGI start (incl. the 416 error path), no hop-by-hop header constant on WSGI paths, file-name text percent-encoded before it enters a header (known finding F9). Not decided: user-supplied header values and iterables (trusted by annotation). The Location header of both RedirectResponse constructors is iri_to_uri(str(url)) on every path.",
+        text="For every concrete response class (9 ASGI, 9 WSGI, found from the class table) the emit sequence is checked against the gateway grammar on ALL paths of __call__ with handle_*, render_stream and the sendfile closures inlined: ASGI start, body*(more_body true), one final body, nothing after, every normal exit after the final body and every exceptional exit a legal prefix; WSGI start_response exactly once before the first body, 'NNN reason' status from the table with its unknown-code fallback, header list from list_headers or the range-exception constants, every yielded expression bytes-typed. Also decided: lower-case byte header names on every ASGI start (incl. the 416 error path), no hop-by-hop header constant on WSGI paths, file-name text percent-encoded before it enters a header (known finding F9). Not decided: user-supplied header values and iterables (trusted by annotation). The Location header of both RedirectResponse constructors is iri_to_uri(str(url)) on every path. No handler of the OSError family or broader around a call that was handed the emit channel may lead to another emission (second response start).",
         note="A send()/start_response call that raises is modelled as not having delivered its event. more_body must be a decidable constant on each path (otherwise UNDECIDED). Inlining bound 5.",
         ref="DESIGN.md section 3, C05",
     ),
@@ -52,49 +52,49 @@ CLAIMS = {
     ),
     "C04": dict(
         technique="static analysis: sibling cross-check - pairing table over both packages, normalised-AST equality (async/await removed, gateway vocabulary mapped, locals alpha-renamed) and multiset comparison of effect fingerprints with an explicit sanctioned-difference table",
-        text="Agreement between two hand-copied implementations is a property of the program text, so it is decided for all inputs and programs at once: 62 sibling pairs (every definition of baize.wsgi.* with its baize.asgi.* namesake, renamed nested definitions, parse_stream/parse_async_stream, UploadFile/FormData sync-async twins) are compared - 28 are equal after normalisation, 34 are compared on effect fingerprints (parameters and defaults, decorators, constants, header writes with key/value/guard, request-mapping stores, attribute stores, raises, calls into shared code with arguments and lexical guard). Every difference must match a sanctioned gateway difference (one regex + one reason each), the Connection header of the event-stream response being the statement's own exception. Also: public-name pairing, one-sided definitions, class attributes and bases, no one-sided override of shared bases. Two genuine differences were found and repaired (F7, F25). Also decided: the shared multipart decoder treats every chunk (empty ones included) as bytes to append, and the scope/environ branches of the shared URL constructor pass corresponding gateway values to one builder.",
+        text="Agreement between two hand-copied implementations is a property of the program text, so it is decided for all inputs and programs at once: 62 sibling pairs (every definition of baize.wsgi.* with its baize.asgi.* namesake, renamed nested definitions, parse_stream/parse_async_stream, UploadFile/FormData sync-async twins) are compared - 28 are equal after normalisation, 34 are compared on effect fingerprints (parameters and defaults, decorators, constants, header writes with key/value/guard, request-mapping stores, attribute stores, raises, calls into shared code with arguments and lexical guard). Every difference must match a sanctioned gateway difference (one regex + one reason each), the Connection header of the event-stream response being the statement's own exception. Also: public-name pairing, one-sided definitions, class attributes and bases, no one-sided override of shared bases. Two genuine differences were found and repaired (F7, F25). Also decided: the shared multipart decoder treats every chunk (empty ones included) as bytes to append, and the scope/environ branches of the shared URL constructor pass corresponding gateway values to one builder. Accessors must return the same shape on both sides; the request path is used as the same text on both interfaces (two WSGI routing constructs are listed known findings, F34).",
         note="Not decided: equality of values computed by shared stdlib calls beyond equal argument expressions; duplicate request-header semantics; a sanctioned whole-body pair (request stream, header mapping, middleware capture) is compared on signature only and covered by C10/C20. A one-sided refactor that changes the lexical guard text of an effect without changing behaviour is reported (conservative).",
         ref="DESIGN.md section 3, C04",
     ),
     "C07": dict(
         technique="static analysis: sanitiser dominance over every path expression reaching a file-system sink (path-sensitive AST dataflow with reaching-definition trees), who-may-call scan, idiom table for segment-aware confinement tests",
-        text="Decides the confinement clause structurally for all request paths: on every path of the four __call__s each expression reaching os.stat / FileResponse is ensure_absolute_path(<request path>) plus at most a separator-free constant suffix; no other function of the static-file modules touches the file system; the sanitiser normalises before testing, tests the value it returns, rejects with None and uses a segment-aware idiom (the over-rejecting relpath.startswith('..') - defect F5, repaired - and the under-rejecting startswith(directory) are violations); the regular-file flag is S_ISREG of the stat of the served path and that stat_result is the one given to FileResponse; the configured directory is absolute; Pages fallbacks (index.html, .html retry, directory redirect) are confined and guarded. Not decided: that every path maps to the right file (defect F6 '/dir/' is described, not detected). No function of the static-file / response modules mutates a module-level or class-level container (a body memo would serve another file's content).",
+        text="Decides the confinement clause structurally for all request paths: on every path of the four __call__s each expression reaching os.stat / FileResponse is ensure_absolute_path(<request path>) plus at most a separator-free constant suffix; no other function of the static-file modules touches the file system; the sanitiser normalises before testing, tests the value it returns, rejects with None and uses a segment-aware idiom (the over-rejecting relpath.startswith('..') - defect F5, repaired - and the under-rejecting startswith(directory) are violations); the regular-file flag is S_ISREG of the stat of the served path and that stat_result is the one given to FileResponse; the configured directory is absolute; Pages fallbacks (index.html, .html retry, directory redirect) are confined and guarded. Not decided: that every path maps to the right file (defect F6 '/dir/' is described, not detected). No function of the static-file / response modules mutates a module-level or class-level container (a body memo would serve another file's content). The sanitiser restores the trailing '/' for every path that ends in '/'; the WSGI apps join PATH_INFO re-decoded as UTF-8; the redirect's URL builder is fed the gateway's own root path + path.",
         note="Trusted: os.path function semantics. Symlinks are outside the statement. A correct confinement test in an idiom outside the table yields UNDECIDED.",
         ref="DESIGN.md section 3, C07",
     ),
     "C14": dict(
         technique="static analysis: writer/reader validator agreement through the resolver, attribute-dependence of the digest, path facts of file_response for RFC 7232 precedence, per-member normalisation shape of the If-None-Match matcher",
-        text="Histories over a file clock are not decidable statically; the check decides structural necessary conditions whose violation produces a stale 304 or a missed revalidation for some history: the compared ETag is generate_etag of the very stat_result that is served and the emitted ETag/Last-Modified come from the same function and stat; the digest depends on both st_mtime and st_size; If-Modified-Since is compared with st_mtime/st_ctime with int() truncation on both sides and <=; on every 304 path decided by If-Modified-Since the If-None-Match header is known absent (defect F21, repaired); weak prefix and quotes are stripped per list member, '*' matches, empty never matches (defect F22, repaired); a 304 path builds Response(304) and never a FileResponse. Every definition of the validator variables handed to file_response is the header read or the default preceding it.",
+        text="Histories over a file clock are not decidable statically; the check decides structural necessary conditions whose violation produces a stale 304 or a missed revalidation for some history: the compared ETag is generate_etag of the very stat_result that is served and the emitted ETag/Last-Modified come from the same function and stat; the digest depends on both st_mtime and st_size; If-Modified-Since is compared with st_mtime/st_ctime with int() truncation on both sides and <=; on every 304 path decided by If-Modified-Since the If-None-Match header is known absent (defect F21, repaired); weak prefix and quotes are stripped per list member, '*' matches, empty never matches (defect F22, repaired); a 304 path builds Response(304) and never a FileResponse. Every definition of the validator variables handed to file_response is the header read or the default preceding it. file_response is the only producer of a 304.",
         note="Partial by construction: decides the mechanism, not the outcome of arbitrary modification/request histories. Trusted: os.stat field meanings, email.utils date parsing.",
         ref="DESIGN.md section 3, C14",
     ),
     "C19": dict(
         technique="static analysis: API rule on the line splitter (receiver typed by the ServerSentEvent TypedDict), regular-language equality of the folded line-break pattern with {CRLF, CR, LF}, folded shape of the block expression, constant checks of ping/headers, charset provenance",
-        text="Decides for all event texts the clause that made the property fail: the data lines are produced by a splitter whose language is exactly CR, LF, CRLF (str.splitlines on the str data - defect F2, repaired - or any pattern whose automaton differs is a violation with a witness). Also decided: each line is '<field>: <value>' encoded with the response charset, lines joined with LF and a terminating blank line, the ping is a comment block equal on both stacks, Content-Type text/event-stream carries the charset actually used for encoding, Cache-Control no-cache, user headers override. Not decided: conformance of arbitrary event/id text (the statement restricts them to single lines); delivery order is C06. Nothing yielded is dropped while the client is connected: the 'client went away' flag is set only from a received http.disconnect, and an item pulled from the user's iterator is always enqueued.",
+        text="Decides for all event texts the clause that made the property fail: the data lines are produced by a splitter whose language is exactly CR, LF, CRLF (str.splitlines on the str data - defect F2, repaired - or any pattern whose automaton differs is a violation with a witness). Also decided: each line is '<field>: <value>' encoded with the response charset, lines joined with LF and a terminating blank line, the ping is a comment block equal on both stacks, Content-Type text/event-stream carries the charset actually used for encoding, Cache-Control no-cache, user headers override. Not decided: conformance of arbitrary event/id text (the statement restricts them to single lines); delivery order is C06. Nothing yielded is dropped while the client is connected: the 'client went away' flag is set only from a received http.disconnect, and an item pulled from the user's iterator is always enqueued. The encoder does not modify the event dict it is given.",
         note="Trusted: re semantics for the pattern subset; the TypedDict annotation for the type of data.",
         ref="DESIGN.md section 3, C19",
     ),
     "C20": dict(
         technique="static analysis: container-multiplicity rule from the folded behaviour of Headers.__init__, call-count on all paths of from_app, iterator-identity discipline in ensure_next, capture/relay shape of the two callbacks, pass-through shape of the wrappers",
-        text="Decides the structural causes of non-transparency: the inner header list must travel in a multiplicity-preserving container (capturing into Headers(...), which folds repeated names with ', ', is reported at both from_app callbacks - known finding F4); the inner application is called exactly once on every path and only through next_call; the iterator advanced to force the first chunk is the one drained (defect F3, repaired); status is taken unchanged from the start event; on ASGI every body message is pushed once and EOF is signalled exactly when more_body is false; decorator/request_response wrappers call view/handler once and hand the response the original gateway arguments. Not decided: byte equality of streamed bodies, error-before/after-start behaviour. Both ASGI header conversions around a middleware (from_app decode, list_headers encode) are Latin-1; NextResponse does not re-serialise header text privately.",
+        text="Decides the structural causes of non-transparency: the inner header list must travel in a multiplicity-preserving container (capturing into Headers(...), which folds repeated names with ', ', is reported at both from_app callbacks - known finding F4); the inner application is called exactly once on every path and only through next_call; the iterator advanced to force the first chunk is the one drained (defect F3, repaired); status is taken unchanged from the start event; on ASGI every body message is pushed once and EOF is signalled exactly when more_body is false; decorator/request_response wrappers call view/handler once and hand the response the original gateway arguments. Not decided: byte equality of streamed bodies, error-before/after-start behaviour. Both ASGI header conversions around a middleware (from_app decode, list_headers encode) are Latin-1; NextResponse does not re-serialise header text privately. Forcing the first chunk tolerates an empty body; the header mapping's constructor keeps its own store and the values as given; every http.response.* message type the package emits has a branch in the ASGI capture.",
         note="Trusted: iterator protocol semantics.",
         ref="DESIGN.md section 3, C20",
     ),
     "C01": dict(
         technique="static analysis: boundary-escape provenance, regular-language equality of the folded delimiter patterns (boundary as an opaque symbol) incl. first-set, hold-back provenance on all paths of next_event/last_newline, guarded-effect extraction of the helper loops, sibling equality",
-        text="The whole property (byte-exact round trip for all contents x all chunkings) quantifies over run-time bytes and is not decided. Decided necessary conditions, each of which breaks chunk-independence or exactness when violated: the boundary passes re.escape before every re.compile; the delimiter patterns denote exactly 'line break -- boundary (--)? blanks line break' and every match starts with CR or LF (automaton decisions); while more data is expected the emitted and the deleted prefix are the same hold-back bound, that bound is last_newline() (or max(last_newline(), len(buffer) - len(boundary) - K) with K >= 3, and only while no complete boundary is buffered), last_newline() is the minimum of the last LF and the last CR (each defaulting to len(buffer)), the final Data of a part is content up to match.start() with the delimiter consumed to match.end(); the helper loops handle every event class, accumulate/flush/stream/rewind under the right guards, equally in sync and async; both form accessors hand the Latin-1 boundary, charset default and their own stream to their own helper. Decoder input discipline: receive_data appends every chunk and completes on None alone, the header block is split into lines as bytes, a part is a File exactly when the filename parameter is not None; the WSGI chunk source ends on an empty read only.",
+        text="The whole property (byte-exact round trip for all contents x all chunkings) quantifies over run-time bytes and is not decided. Decided necessary conditions, each of which breaks chunk-independence or exactness when violated: the boundary passes re.escape before every re.compile; the delimiter patterns denote exactly 'line break -- boundary (--)? blanks line break' and every match starts with CR or LF (automaton decisions); while more data is expected the emitted and the deleted prefix are the same hold-back bound, that bound is last_newline() (or max(last_newline(), len(buffer) - len(boundary) - K) with K >= 3, and only while no complete boundary is buffered), last_newline() is the minimum of the last LF and the last CR (each defaulting to len(buffer)), the final Data of a part is content up to match.start() with the delimiter consumed to match.end(); the helper loops handle every event class, accumulate/flush/stream/rewind under the right guards, equally in sync and async; both form accessors hand the Latin-1 boundary, charset default and their own stream to their own helper. Decoder input discipline: receive_data appends every chunk and completes on None alone, the header block is split into lines as bytes, a part is a File exactly when the filename parameter is not None; the WSGI chunk source ends on an empty read only. The second hold-back idiom (a trailing partial delimiter found by an end-anchored regex) is proved by automaton inclusion: every non-empty delimiter prefix is matched. request.content_type parses the whole header value; the parameter splitter's quote parity discounts escaped quotes.",
         note="Partial: structural preconditions of exactness, not the equality itself. parse_header quoting round trip is not decided.",
         ref="DESIGN.md section 3, C01",
     ),
     "C15": dict(
         technique="static analysis: guarded-effect extraction of the helper loops (increment / comparison / raise with lexical guards and same-block ordering), strictness of the comparisons, folded status constant, bounded hold-back idiom rule on the decoder",
-        text="Decides limit exactness structurally: field bytes are counted by len(event.data) on exactly the in-memory field paths and compared with strict > (guarded by 'is not None') directly after the increment in the same Data iteration; parts are counted by exactly 1 on exactly the last-Data paths of fields and files and compared with strict >; both raise RequestEntityTooLarge whose constructor folds to 413; sync and async helpers are equal after normalisation; upload data is written per event; the decoder's hold-back is clamped independently of the data (defect F23 - unbounded buffering of a part that starts with CR - was found by this rule and repaired). Not decided: the numeric buffering bound for all chunkings, spooled-file roll-over. A part counts as non-file field data exactly when its Content-Disposition has no filename parameter (`is None` test).",
+        text="Decides limit exactness structurally: field bytes are counted by len(event.data) on exactly the in-memory field paths and compared with strict > (guarded by 'is not None') directly after the increment in the same Data iteration; parts are counted by exactly 1 on exactly the last-Data paths of fields and files and compared with strict >; both raise RequestEntityTooLarge whose constructor folds to 413; sync and async helpers are equal after normalisation; upload data is written per event; the decoder's hold-back is clamped independently of the data (defect F23 - unbounded buffering of a part that starts with CR - was found by this rule and repaired). Not decided: the numeric buffering bound for all chunkings, spooled-file roll-over. A part counts as non-file field data exactly when its Content-Disposition has no filename parameter (`is None` test). Every hold-back path is bounded: the clamp idiom, or the pending-delimiter pattern whose words lacking the delimiter have bounded length (longest word of the automaton).",
         note="Partial by construction. The clamp's soundness condition (K >= 3, only while no boundary is buffered) is checked by C01/R1.3.",
         ref="DESIGN.md section 3, C15",
     ),
     "C02": dict(
         technique="static analysis: symbolic length algebra (linear forms over |boundary|, |content_type|, digit-count atoms and end-start) comparing the Content-Length formula with the emitted template and both emitters; header-before-start dominance and HEAD independence on all handler paths; If-Range gate facts; writer/reader expression agreement; open/close pairing on all exits",
-        text="Decides for all boundary/content-type/number lengths whether the closed-form multipart Content-Length equals what is emitted: the formula and the emissions (f-string of the header generator, per-range and closing pieces of both handle_several_ranges) are reduced to linear forms and compared coefficient by coefficient, so a changed template, line ending, extra header or one-sided emitter edit is reported whatever the digit counts. Also decided on all paths: framing headers are written before the start event and independently of HEAD, the HEAD path opens nothing and sends one empty body, single-range headers and reader arguments use the same (start, end), Range is honoured only behind the If-Range gate and judge_if_range compares against the emitted validators, the 400/416 path forwards status/headers ('*/size') and opens nothing, ASGI descriptors are closed on every normal and exceptional exit. Not decided: that the chunk loops read exactly end-start bytes for every chunk_size alignment. Two structural clauses of the otherwise undecided arithmetic: the ASGI fallback sender clamps every bounded read by a count-derived remaining value with no fall-back operand and stops from the count bookkeeping; an interval replaced in parse_range's result is the hull of both.",
+        text="Decides for all boundary/content-type/number lengths whether the closed-form multipart Content-Length equals what is emitted: the formula and the emissions (f-string of the header generator, per-range and closing pieces of both handle_several_ranges) are reduced to linear forms and compared coefficient by coefficient, so a changed template, line ending, extra header or one-sided emitter edit is reported whatever the digit counts. Also decided on all paths: framing headers are written before the start event and independently of HEAD, the HEAD path opens nothing and sends one empty body, single-range headers and reader arguments use the same (start, end), Range is honoured only behind the If-Range gate and judge_if_range compares against the emitted validators, the 400/416 path forwards status/headers ('*/size') and opens nothing, ASGI descriptors are closed on every normal and exceptional exit. Not decided: that the chunk loops read exactly end-start bytes for every chunk_size alignment. Two structural clauses of the otherwise undecided arithmetic: the ASGI fallback sender clamps every bounded read by a count-derived remaining value with no fall-back operand and stops from the count bookkeeping; an interval replaced in parse_range's result is the hull of both. FileResponse stats the path it opens with os.stat; every response owns its header store.",
         note="Partial. Assumes the part header text is one byte per character. Sibling agreement of the handlers is C04, the emit grammar is C05.",
         ref="DESIGN.md section 3, C02",
     ),
@@ -106,19 +106,19 @@ CLAIMS = {
     ),
     "C17": dict(
         technique="static analysis: paired-representation update rule on all paths of every mutator (effects on _dict/_list collected with reaching-definition values), constructor freshness, alias scan, mixin/override scan",
-        text="Decides the mechanism the statement's rationale names, not equality with the list-of-pairs model: every mutator of MutableMultiMapping touches both representations or neither on every normal path, for the key and values the statement requires (assignment replaces in place / appends, append adds the pair and the last value, setlist stores the last value and rebuilds the pairs, delete removes from both), or delegates to an audited dunder; the constructor builds _dict from the same fresh list that becomes _list; no method returns the internal containers; pop/popitem/clear/update/setdefault are the inherited mixins; the read views are split as stated and QueryParams/FormData inherit them. This is the weakest claim of the set. Deleting list elements by position while walking positions in ascending order is reported in every mutator.",
+        text="Decides the mechanism the statement's rationale names, not equality with the list-of-pairs model: every mutator of MutableMultiMapping touches both representations or neither on every normal path, for the key and values the statement requires (assignment replaces in place / appends, append adds the pair and the last value, setlist stores the last value and rebuilds the pairs, delete removes from both), or delegates to an audited dunder; the constructor builds _dict from the same fresh list that becomes _list; no method returns the internal containers; pop/popitem/clear/update/setdefault are the inherited mixins; the read views are split as stated and QueryParams/FormData inherit them. This is the weakest claim of the set. Deleting list elements by position while walking positions in ascending order is reported in every mutator. The constructor's mapping branch is selected by the abstract Mapping type.",
         note="Partial. Trusted: typing.MutableMapping mixins, dict last-wins semantics. Loop bodies are analysed with a non-empty-iterable refinement.",
         ref="DESIGN.md section 3, C17",
     ),
     "C18": dict(
         technique="static analysis: argument provenance of the single URL builder on both gateway branches, folded default-port table and precedence order, path facts of __repr__ for password masking, shape of replace()",
-        text="Decides: both gateway branches of URL.__init__ end in the same _build_url call with the corresponding gateway values (root path + path, query string, server pair, Host header); the Host header test precedes the server branch, the folded default-port table is {http:80, https:443, ws:80, wss:443} indexed by the URL's own scheme, port elision matches the default test, the query is appended only when non-empty; on every __repr__ path with a truthy password the formatted text comes from replace(password=<constant>); replace() defaults the four netloc components to the current ones, writes netloc only inside that branch, nests the password under the user name and delegates the rest to SplitResult._replace. Not decided: netloc surgery for every host shape, Latin-1/UTF-8 path round trip, query helper values. replace() is decided on path values: on all netloc paths the text flattens to [user[:password]@]host[:port] with the popped components, the password only under a tested user name, an unchanged host cut verbatim out of self.netloc; include_query_params rests on a __setitem__ without stale-position deletes.",
+        text="Decides: both gateway branches of URL.__init__ end in the same _build_url call with the corresponding gateway values (root path + path, query string, server pair, Host header); the Host header test precedes the server branch, the folded default-port table is {http:80, https:443, ws:80, wss:443} indexed by the URL's own scheme, port elision matches the default test, the query is appended only when non-empty; on every __repr__ path with a truthy password the formatted text comes from replace(password=<constant>); replace() defaults the four netloc components to the current ones, writes netloc only inside that branch, nests the password under the user name and delegates the rest to SplitResult._replace. Not decided: netloc surgery for every host shape, Latin-1/UTF-8 path round trip, query helper values. replace() is decided on path values: on all netloc paths the text flattens to [user[:password]@]host[:port] with the popped components, the password only under a tested user name, an unchanged host cut verbatim out of self.netloc; include_query_params rests on a __setitem__ without stale-position deletes. The URL is split with urlsplit.",
         note="Partial; value-level clauses are outside static reach.",
         ref="DESIGN.md section 3, C18",
     ),
     "C06": dict(
         technique="static analysis: resource/handle pairing on all exits (path-sensitive dataflow with exceptions and generator-close injected at every call/await/yield), close-once rule for the user's iterable, wait-for (lock-order style) rule on the queue hand-off, FIFO/yield-every-item shape",
-        text="Interleavings and deadlines are schedule-quantified and not decided. Decided structural necessary conditions: every background task/future is cancelled or awaited on every exit of its creator, in a finally; the user's iterable is closed exactly once on every exit of the relay, the ASGI stream generator and the ASGI streaming __call__ (WSGI streams delegate with yield from); a join-like wait of the closing consumer on a thread relay is legal only if the relay's puts on the bounded queue cannot block forever (non-blocking/timed put, unbounded queue, or a consumer that drains until the relay is done) - this rule found the WSGI deadlock F10, since repaired - and on asyncio the task outcome is read only after cancel() returned False; the stop flag is raised in the finally and tested by the relay loop; the hand-off is a FIFO queue with one producer loop and a consumer that yields every dequeued non-sentinel item once. No handler around an ASGI send() (direct or via the emit helpers) can swallow OSError; the closed flag is set only from a received http.disconnect; a pulled item is always enqueued.",
+        text="Interleavings and deadlines are schedule-quantified and not decided. Decided structural necessary conditions: every background task/future is cancelled or awaited on every exit of its creator, in a finally; the user's iterable is closed exactly once on every exit of the relay, the ASGI stream generator and the ASGI streaming __call__ (WSGI streams delegate with yield from); a join-like wait of the closing consumer on a thread relay is legal only if the relay's puts on the bounded queue cannot block forever (non-blocking/timed put, unbounded queue, or a consumer that drains until the relay is done) - this rule found the WSGI deadlock F10, since repaired - and on asyncio the task outcome is read only after cancel() returned False; the stop flag is raised in the finally and tested by the relay loop; the hand-off is a FIFO queue with one producer loop and a consumer that yields every dequeued non-sentinel item once. No handler around an ASGI send() (direct or via the emit helpers) can swallow OSError; the closed flag is set only from a received http.disconnect; a pulled item is always enqueued. A timed put raises Full in the path model; the wait for the relay is skipped when cancel() removed a relay that never started.",
         note="Partial: a sufficient-condition table for absence of the deadlock, not a proof of termination under all schedules; unrecognised synchronisation idioms are UNDECIDED. Trusted: Future.cancel semantics, PEP 380 close forwarding.",
         ref="DESIGN.md section 3, C06",
     ),
